@@ -24,9 +24,14 @@ def Scheme.Correct (s : Scheme) : Prop := ∀ m, s.verify m (s.sign m) = true
 /-- A-crypto for one run: besides the pair the signer produced for `m`, nothing verifies -/
 def Scheme.ExactOn (s : Scheme) (m : Bytes) : Prop := ∀ m' v, s.verify m' v = true → m' = m ∧ v = s.sign m
 
-/-- the validator's verdict on a decoded packet: right signature type and the scheme verifies
+/-- the validator's verdict on a decoded packet: right signature type, a signature value is
+    present (every shipped validator returns false for an absent value: a 32-byte digest / MAC never
+    equals nil, ASN.1 / PKCS#1 verification of an empty signature fails) and the scheme verifies
     (signed portion reported by the parser, signature value) -/
 def verdict (s : Scheme) (wantType : Nat) (gotType : Option Nat) (cov : Bytes) (sv : Option Bytes) : Bool :=
-  gotType == some wantType && s.verify cov (sv.getD [])
+  gotType == some wantType &&
+  match sv with
+  | none => false
+  | some v => s.verify cov v
 
 end Ndn.C12
